@@ -99,4 +99,18 @@ func init() {
 	)
 }
 
+func init() {
+	props = append(props,
+		Prop{
+			ID: "C01",
+			Runs: []Run{
+				{Harness: "zzverif/zzh.ZZC01Basic", Desc: "one package: @immutable/@constructor/@mutable presence, compound operator (all 11) and ++/-- symbolic; assignment, compound, mutable field, index, inc/dec, read, constructor body",
+					Bounds: map[string]interface{}{"skeleton": "c01SrcD", "holes": 5}},
+			},
+			Outside:     []string{"generics; promoted fields through embedding; parenthesised left-hand sides"},
+			Assumptions: []string{"program skeletons are parsed and type-checked by the real go/parser and go/types; their AST is imported into the interpreter heap; go/types objects are host objects queried through accessor methods"},
+		},
+	)
+}
+
 var _ = eng.RepoMod
